@@ -99,6 +99,9 @@ class Exec:
             from spil.sid.read.tools import unfold_search
             if c["style"] == "kw":
                 return unfold_search(c["s"], do_uniquify=c["u"], do_extrapolate=c["e"])
+            if c["style"] == "sparse":
+                # only the flags that are set, by keyword; the others are left to their defaults
+                return unfold_search(c["s"], **{n: True for n, on in (("do_uniquify", c["u"]), ("do_extrapolate", c["e"])) if on})
             if c["style"] == "mixed":
                 return unfold_search(c["s"], c["u"], do_extrapolate=c["e"])
             if c["style"] == "default" and not c["u"] and not c["e"]:
